@@ -220,7 +220,8 @@ impl Flounder {
         let reserve = 5_000; // Try to always keep 5 seconds
         let available = time_left.saturating_sub(reserve);
         let base_time = available / 25;
-        let allocated = base_time + increment;
+        // Never budget the whole clock: stay strictly below the remaining time
+        let allocated = (base_time + increment).min(time_left.saturating_sub(1));
 
         Some(Duration::from_millis(allocated))
     }
